@@ -81,7 +81,7 @@ func (ds *defaultSpreaderPipeline) worker(ctx context.Context, wg *sync.WaitGrou
 			ds.Unlock()
 			if err != nil {
 				verifPoint("sink.errsend.pre", vid, verifName(root))
-				errc <- err
+				sendErr(ctx, errc, err)
 				verifPoint("sink.errsend.post", vid, verifName(root))
 				return
 			}
@@ -153,7 +153,7 @@ func (f *formattedSpreaderPipeline[T]) spread(ctx context.Context, w io.Writer, 
 				verifPoint("sink.recv.post", vid, verifName(root))
 				if err := encode(toFormattedNode(root, f.formattedRoot(root.name))); err != nil {
 					verifPoint("sink.errsend.pre", vid, verifName(root))
-					errc <- err
+					sendErr(ctx, errc, err)
 					verifPoint("sink.errsend.post", vid, verifName(root))
 				}
 				verifPoint("sink.done", vid, verifName(root))
@@ -207,14 +207,14 @@ func (cs *colorizeSpreaderPipeline) spread(ctx context.Context, w io.Writer, roo
 						cs.summary()),
 				); err != nil {
 					verifPoint("sink.errsend.pre", vid, verifName(root))
-					errc <- err
+					sendErr(ctx, errc, err)
 					verifPoint("sink.errsend.post", vid, verifName(root))
 					return
 				}
 			}
 			if err := bw.Flush(); err != nil {
 				verifPoint("sink.errsend.pre", vid, "")
-				errc <- err
+				sendErr(ctx, errc, err)
 				verifPoint("sink.errsend.post", vid, "")
 				return
 			}
